@@ -15,7 +15,7 @@ use vpmodel::spec::{mono, ChainSpec};
 pub const DEF: PropDef = PropDef {
     id: "C10",
     level: "fault_enumeration",
-    rule: "fault plans applied to generated chains stored in 2..4 blk files, for the three file-producing callbacks. Enumerated part (fixed generated 6-block chain): every height x input fault {blk file removed, emptied, truncated at 7 positions of the block incl. inside the length prefix and at the last byte, index offset past EOF}; 27 RLIMIT_FSIZE limits from 0 to above the largest output file (SIGXFSZ ignored, so writes fail with EFBIG) on an index pre-compacted to table files; ENOSPC injected (strace) at the k-th write to a dump file for k=1..8; SIGKILL injected on entry of the k-th openat/write/rename/close touching a dump file for k=1..6 each. One enumerated chain produces > 4 MB per file so that writes fail mid-run, before the final flush. Random part: random chains, ranges and fault plans, a quarter of them into a dump folder that already holds longer stale *.tmp files of an earlier failed run. Oracles: (a) exit 0 => every expected final-named file present and byte-identical to the undisturbed run, no *.tmp; (b) input fault hitting a processed height h => exit != 0, 'Error at height h', no final-named file; (c) output fault that fires => exit != 0 and no final-named file; (d) kill at any point => every final-named file that exists is byte-identical to the undisturbed output. Non-trivial = the fault actually fired in the read/write path of the run (not at start-up); distinct by (callback, fault kind, position).",
+    rule: "fault plans applied to generated chains stored in 2..4 blk files, for the three file-producing callbacks. Enumerated part (fixed generated 6-block chain): every height x input fault {blk file removed, emptied, truncated at 7 positions of the block incl. inside the length prefix and at the last byte, index offset past EOF}; 27 RLIMIT_FSIZE limits from 0 to above the largest output file (SIGXFSZ ignored, so writes fail with EFBIG) on an index pre-compacted to table files; ENOSPC injected (strace) at the k-th write to any dump file for k=1..8 and at the first and second write to each single dump file; SIGKILL injected on entry of the k-th openat/write/rename/close touching a dump file for k=1..6 each. One enumerated chain produces > 4 MB per file so that writes fail mid-run, before the final flush. Random part: random chains, ranges and fault plans, a quarter of them into a dump folder that already holds longer stale *.tmp files of an earlier failed run. Oracles: (a) exit 0 => every expected final-named file present and byte-identical to the undisturbed run, no *.tmp; (b) input fault hitting a processed height h => exit != 0, 'Error at height h', no final-named file; (c) output fault that fires => exit != 0 and no final-named file; (d) kill at any point => every final-named file that exists is byte-identical to the undisturbed output. Non-trivial = the fault actually fired in the read/write path of the run (not at start-up); distinct by (callback, fault kind, position).",
     assumptions: &["crash points are syscall-granular (the directory can only change at syscalls); power loss / fsync ordering is outside the statement", "physical order inside a file equals height order, so the first height lost by a truncation is the truncated block's"],
     run,
     replay,
@@ -31,7 +31,12 @@ pub enum Fault {
     OffsetPastEof { h: u16 },
     /// RLIMIT_FSIZE = max_output_size * num / den + delta
     Fsize { num: u32, den: u32, delta: i32 },
-    Enospc { k: u32 },
+    Enospc {
+        k: u32,
+        /// restrict the injection to the k-th write to this one dump file (index into the callback's files)
+        #[serde(default)]
+        file: Option<u8>,
+    },
     Kill { syscall: String, k: u32 },
 }
 
@@ -171,7 +176,14 @@ pub fn check(c: &Case) -> Verdict {
             limit = Some(l);
             of.fsize = Some(l);
         }
-        Fault::Enospc { k } => of.inject = Some(Inject { syscall: "write".into(), action: "error=ENOSPC".into(), when: *k as u64, paths: tmp_paths(c.cb, &dump) }),
+        Fault::Enospc { k, file } => {
+            let all = tmp_paths(c.cb, &dump);
+            let paths = match file {
+                Some(f) => vec![all[*f as usize % all.len()].clone()],
+                None => all,
+            };
+            of.inject = Some(Inject { syscall: "write".into(), action: "error=ENOSPC".into(), when: *k as u64, paths })
+        }
         Fault::Kill { syscall, k } => of.inject = Some(Inject { syscall: syscall.clone(), action: "signal=KILL".into(), when: *k as u64, paths: tmp_paths(c.cb, &dump) }),
         _ => {}
     }
@@ -358,7 +370,12 @@ fn enumerated(seed: u64, tier: Tier) -> Vec<Case> {
             }
         }
         for k in 1..=8 {
-            v.push(mk(Fault::Enospc { k }));
+            v.push(mk(Fault::Enospc { k, file: None }));
+        }
+        for f in 0..cb.stems().len() as u8 {
+            for k in 1..=2 {
+                v.push(mk(Fault::Enospc { k, file: Some(f) }));
+            }
         }
         for sc in ["openat", "write", "rename", "close"] {
             for k in 1..=6 {
@@ -375,7 +392,8 @@ fn enumerated(seed: u64, tier: Tier) -> Vec<Case> {
             v.push(mk(Fault::Fsize { num, den: 8, delta }));
         }
         for k in 1..=3 {
-            v.push(mk(Fault::Enospc { k }));
+            v.push(mk(Fault::Enospc { k, file: None }));
+            v.push(mk(Fault::Enospc { k, file: Some(k as u8) }));
             v.push(mk(Fault::Kill { syscall: "write".into(), k }));
         }
     }
@@ -390,7 +408,7 @@ fn random_strategy(tier: Tier) -> BS<Case> {
         4 => (any::<u16>(), any::<u32>()).prop_map(|(h, at)| Fault::Truncated { h, at }),
         2 => any::<u16>().prop_map(|h| Fault::OffsetPastEof { h }),
         4 => (0u32..=1000, -2i32..=2).prop_map(|(num, delta)| Fault::Fsize { num, den: 1000, delta }),
-        2 => (1u32..10).prop_map(|k| Fault::Enospc { k }),
+        2 => (1u32..10, proptest::option::weighted(0.5, 0u8..4)).prop_map(|(k, file)| Fault::Enospc { k, file }),
         4 => (proptest::sample::select(vec!["openat", "write", "rename", "close"]), 1u32..8).prop_map(|(s, k)| Fault::Kill { syscall: s.to_string(), k }),
     ];
     (gen::chain(&chain_cfg(tier)), 2u8..=4, proptest::sample::select(FILE_CALLBACKS.to_vec()), proptest::option::weighted(0.3, any::<u16>()), proptest::option::weighted(0.3, any::<u16>()), fault, proptest::bool::weighted(0.25)).prop_map(|(chain, nfiles, cb, start, end, fault, stale_tmp)| Case { chain, nfiles, cb, start, end, fault, stale_tmp }).boxed()
